@@ -22,6 +22,8 @@ HARNESS = {
     "shim_many1": dict(kind="shim", proved=False, fns=["nom::multi::many1"], bound="input <= 4 bytes, cheap element parser (u8 elements)"),
     "shim_many0": dict(kind="shim", proved=False, fns=["nom::multi::many0"], bound="input <= 4 bytes, cheap element parser (u8 elements)"),
     "shim_opt_cond": dict(kind="shim", proved=False, fns=["nom::combinator::opt", "nom::combinator::cond", "nom::combinator::map"], bound="input <= 3 bytes, cheap element parser"),
+    "shim_length_count": dict(kind="shim", proved=False, fns=["nom::multi::length_count"], bound="input <= 4 bytes, counts 0..3, cheap element parser (all result classes)"),
+    "shim_alt": dict(kind="shim", proved=False, fns=["nom::branch::alt"], bound="input <= 4 bytes, two cheap branches (all result classes)"),
     "shim_verify": dict(kind="shim", proved=False, fns=["nom::combinator::verify"], bound="input <= 4 bytes, cheap element parser, predicate threshold full domain"),
     "shim_pair": dict(kind="shim", proved=False, fns=["nom::sequence::pair"], bound="input <= 4 bytes, cheap element parser (all result classes, non-consuming success included)"),
     "shim_map_parser": dict(kind="shim", proved=False, fns=["nom::combinator::map_parser"], bound="input <= 5 bytes, count usize full domain, cheap inner parser"),
@@ -190,14 +192,14 @@ PROPS = {
     ),
     "C04": dict(
         level="model_checking",
-        level_text="Dispatcher: unbounded deductive proof (Verus) on the real parse_tls_message_handshake body - type/u24 framing, type -> body-parser table for all 256 codes, body isolated to exactly the declared bytes before any body parser runs, exact consumption, Switch for unknown types, Incomplete(missing) for cut-off messages. Bodies: one Kani contract harness per body parser on the compiled code against an index-based reference decoder written from the RFCs (every field, order, presence/absence, every rejection rule of the property as its own assertion, pointer-exact slices): complete in byte contents and in every integer parameter, BOUNDED in input length. Unbounded as well (Verus, units bodies / bodies2 / hellos, on the real bodies): ClientHello (every field at its offset, session id present iff its length byte is non-zero, cipher and compression ids in wire order, optional extension block; session-id length > 32, odd or overlong cipher list, overlong compression list rejected, every cut-off mandatory field Incomplete), ServerHello for SSL 3.0..TLS 1.2 and the draft-18 layout incl. the legacy-version switch of both entry points (0x0300 without extensions, 0x0301..0x0303 with, 0x7f12 draft 18, everything else Error(Tag)), HelloRetryRequest, NewSessionTicket, CertificateStatus, NextProtocol, HelloRequest, the one-blob bodies ServerKeyExchange / ServerDone / CertificateVerify / Finished, and Certificate (unit certs: u24 list length, the list window is exactly the declared bytes, certificates = the explicit accumulate-while-Ok loop of the u24-prefixed entry parser over the window, a list longer than the body is Incomplete). In Kani ClientHello is verified modularly against the contracts of the cipher/compression list helpers, which have their own leaf harnesses (the same contracts are what the Verus proof of ClientHello assumes for them).",
+        level_text="Dispatcher: unbounded deductive proof (Verus) on the real parse_tls_message_handshake body - type/u24 framing, type -> body-parser table for all 256 codes, body isolated to exactly the declared bytes before any body parser runs, exact consumption, Switch for unknown types, Incomplete(missing) for cut-off messages. Bodies: one Kani contract harness per body parser on the compiled code against an index-based reference decoder written from the RFCs (every field, order, presence/absence, every rejection rule of the property as its own assertion, pointer-exact slices): complete in byte contents and in every integer parameter, BOUNDED in input length. Unbounded as well (Verus, units bodies / bodies2 / hellos, on the real bodies): ClientHello (every field at its offset, session id present iff its length byte is non-zero, cipher and compression ids in wire order, optional extension block; session-id length > 32, odd or overlong cipher list, overlong compression list rejected, every cut-off mandatory field Incomplete), ServerHello for SSL 3.0..TLS 1.2 and the draft-18 layout incl. the legacy-version switch of both entry points (0x0300 without extensions, 0x0301..0x0303 with, 0x7f12 draft 18, everything else Error(Tag)), HelloRetryRequest, NewSessionTicket, CertificateStatus, NextProtocol, HelloRequest, the one-blob bodies ServerKeyExchange / ServerDone / CertificateVerify / Finished, and Certificate (unit certs: u24 list length, the list window is exactly the declared bytes, certificates = the explicit accumulate-while-Ok loop of the u24-prefixed entry parser over the window, a list longer than the body is Incomplete) and CertificateRequest (unit certreq: both layouts field by field - certificate types = the counted bytes, signature algorithms = the explicit be_u16 loop over exactly the declared window, distinguished names = the explicit loop of the u16-prefixed name reader over exactly the declared window - and the entry point = the TLS 1.2 layout made complete, else the older layout made complete). In Kani ClientHello is verified modularly against the contracts of the cipher/compression list helpers, which have their own leaf harnesses (the same contracts are what the Verus proof of ClientHello assumes for them).",
         level_note="Trusted: nom shim contracts be_u8/be_u24/take (Kani shim_be, shim_take); body parsers are uninterpreted in Verus with the assumed fact 'on success returns its own variant' (asserted by each Kani leaf); reference decoders in /verif/kani/pub_c04_handshake.rs are hand-written from RFC 5246/8446/5077/6066; contract stubs for parse_cipher_suites/parse_compressions_algs return an unconstrained (dummy) list content - the caller never inspects it.",
         technique="contract-based deductive verification: Verus on the extracted dispatcher + Kani contract harnesses per body parser (modular for ClientHello)",
-        verus=["dispatch_hs", "bodies", "bodies2", "hellos", "certs"],
+        verus=["dispatch_hs", "bodies", "bodies2", "hellos", "certs", "certreq"],
         kani=[dict(quick=["leaf_hs_ske", "leaf_hs_serverdone", "leaf_hs_certverify", "leaf_hs_cke", "leaf_hs_finished", "fd_hs_hello_request", "fd_hs_key_update",
                           "leaf_hs_newsessionticket", "leaf_hs_hello_retry_request", "leaf_hs_server_hello_msg", "leaf_hs_server_hello", "leaf_hs_certificatestatus",
                           "leaf_hs_next_protocol", "leaf_hs_certificate", "mod_client_hello", "mod_client_hello_long", "leaf_hs_client_hello_sid33", "leaf_cipher_suites", "leaf_compressions",
-                          "shim_be", "shim_take", "shim_length_data", "shim_opt_cond", "shim_verify"],
+                          "shim_be", "shim_take", "shim_length_data", "shim_opt_cond", "shim_verify", "shim_length_count", "shim_alt", "shim_map_parser", "shim_many0", "shim_complete"],
                    thorough=["leaf_hs_certificate_request"], timeout=900, timeout_thorough=2400)],
         paired={"dispatch_hs": []},
         explanation="see level_text",
